@@ -1047,7 +1047,10 @@ impl Entity {
                     }
                 }
             }
-            self.insert_field(field.0, field.1);
+            // keep the identifier given by the position in the new definition: every existing field
+            // has been checked to sit at its previous position, so the new ones follow them in text
+            // order. Numbering them here would follow the iteration order of a HashMap.
+            self.fields.insert(field.0, field.1);
         }
 
         let mut index_map = HashMap::new();
